@@ -783,3 +783,142 @@ pub fn sample_tape(seed: u64, len: usize) -> Vec<u16> {
     let strat = proptest::collection::vec(proptest::num::u16::ANY, len..=len);
     strat.new_tree(&mut runner).unwrap().current()
 }
+
+// ---------------------------------------------------------------------------------------------
+// libFuzzer stage (thorough tiers): the fuzzer's bytes are the choice tape of the stage
+
+impl RunCtx {
+    pub fn fuzz_seconds(&self) -> u64 {
+        std::env::var("VERIF_FUZZ_SECONDS").ok().and_then(|s| s.parse().ok()).unwrap_or(120)
+    }
+
+    /// Coverage-guided search over the tapes of `stage` (or the raw-byte `codec` target when `stage` is None).
+    pub fn run_fuzz(&mut self, stage: Option<Stage>, tape_len: usize) {
+        if self.has_failure() {
+            return;
+        }
+        let secs = self.fuzz_seconds();
+        if secs == 0 {
+            self.notes.push("fuzz stage skipped (VERIF_FUZZ_SECONDS=0)".into());
+            return;
+        }
+        let t0 = Instant::now();
+        let harness = self.root.join("harness");
+        let target = if stage.is_some() { "stage" } else { "codec" };
+        let sname = stage.map(|s| s.name).unwrap_or("codec");
+        let work = harness.join("fuzz").join("work").join(format!("{}-{}-{}", self.property, sname, std::process::id()));
+        let corpus = work.join("corpus");
+        let artifacts = work.join("artifacts");
+        let _ = std::fs::remove_dir_all(&work);
+        if std::fs::create_dir_all(&corpus).is_err() || std::fs::create_dir_all(&artifacts).is_err() {
+            self.inconclusive.push(format!("fuzz: cannot create {}", work.display()));
+            return;
+        }
+        // seeds: committed corpus + tapes sampled from the proptest RNG (so libFuzzer does not start from length 0)
+        let mut seeds = 0;
+        let committed = self.root.join("corpus").join(self.property).join(sname);
+        if let Ok(rd) = std::fs::read_dir(&committed) {
+            for e in rd.filter_map(|e| e.ok()) {
+                if std::fs::copy(e.path(), corpus.join(e.file_name())).is_ok() {
+                    seeds += 1;
+                }
+            }
+        }
+        for k in 0..48u64 {
+            let tape = sample_tape(self.seed.wrapping_mul(1_000_003).wrapping_add(k), tape_len);
+            if std::fs::write(corpus.join(format!("sampled-{}", k)), crate::tape::tape_to_bytes(&tape)).is_ok() {
+                seeds += 1;
+            }
+        }
+        let mut cmd = std::process::Command::new("cargo");
+        cmd.args(["+nightly", "fuzz", "run", target])
+            .arg(&corpus)
+            .arg("--")
+            .arg("-fork=8")
+            .arg(format!("-max_total_time={}", secs))
+            .arg(format!("-seed={}", (self.seed % 4_000_000_000).max(1)))
+            .args(["-len_control=0", "-rss_limit_mb=6000", "-timeout=60", "-print_final_stats=1"])
+            .arg(format!("-max_len={}", 2 * tape_len.max(64)))
+            .arg(format!("-artifact_prefix={}/", artifacts.display()))
+            .current_dir(&harness)
+            .env("CARGO_NET_OFFLINE", "true")
+            .env("EBV_FUZZ_PROP", self.property)
+            .env("EBV_FUZZ_STAGE", sname);
+        let out = match cmd.output() {
+            Ok(o) => o,
+            Err(e) => {
+                self.inconclusive.push(format!("fuzz: cannot run cargo fuzz: {}", e));
+                return;
+            }
+        };
+        let log = format!("{}{}", String::from_utf8_lossy(&out.stdout), String::from_utf8_lossy(&out.stderr));
+        // statistics: last "#N: cov: .. ft: .. corp: .. exec/s .." line of fork mode
+        let mut execs = 0u64;
+        let mut cov = 0u64;
+        let mut corp = 0u64;
+        for l in log.lines() {
+            if let Some(rest) = l.strip_prefix('#') {
+                let toks: Vec<&str> = rest.split_whitespace().collect();
+                if let Some(n) = toks.first().and_then(|x| x.trim_end_matches(':').parse::<u64>().ok()) {
+                    execs = execs.max(n);
+                }
+                for w in toks.windows(2) {
+                    if w[0] == "cov:" {
+                        cov = w[1].parse().unwrap_or(cov);
+                    }
+                    if w[0] == "corp:" {
+                        corp = w[1].split('/').next().and_then(|x| x.parse().ok()).unwrap_or(corp);
+                    }
+                }
+            }
+        }
+        let mut crashes: Vec<PathBuf> = std::fs::read_dir(&artifacts).map(|d| d.filter_map(|e| e.ok()).map(|e| e.path()).collect()).unwrap_or_default();
+        crashes.sort();
+        let mut reported = false;
+        let violation_seen = log.contains("EBV-VIOLATION");
+        for c in &crashes {
+            let Ok(bytes) = std::fs::read(c) else { continue };
+            match stage {
+                Some(st) => {
+                    let input = Input::Tape(crate::tape::tape_from_bytes(&bytes));
+                    let (res, _) = replay_stage(&st, &input, true);
+                    if let Err(m) = res {
+                        if m.starts_with("PANIC escaped the case function") {
+                            self.inconclusive.push(format!("fuzz: harness panic on {}: {}", c.display(), m));
+                        } else {
+                            self.failures.push(Failure { stage: st.name, input, message: format!("[found by libFuzzer] {}", m) });
+                        }
+                        reported = true;
+                        break;
+                    }
+                }
+                None => {
+                    // codec target: the artifact is the input; report it verbatim
+                    let line = log.lines().find(|l| l.contains("EBV-VIOLATION")).unwrap_or("EBV-VIOLATION (see artifact)").to_string();
+                    self.failures.push(Failure { stage: "codec_fuzz", input: Input::Bytes(bytes), message: line });
+                    reported = true;
+                    break;
+                }
+            }
+        }
+        if !reported && (violation_seen || !crashes.is_empty()) {
+            self.inconclusive.push(format!("fuzz: {} artifact(s) / violation message did not reproduce in-process (work dir {})", crashes.len(), work.display()));
+        } else if !reported && !out.status.success() {
+            let tail: Vec<&str> = log.lines().rev().take(6).collect();
+            self.inconclusive.push(format!("fuzz: libFuzzer ended with {:?} without an oracle violation: {}", out.status.code(), tail.into_iter().rev().collect::<Vec<_>>().join(" | ")));
+        }
+        let secs_used = t0.elapsed().as_secs_f64();
+        let entry = json!({"target": target, "stage": sname, "seconds": (secs_used * 10.0).round() / 10.0, "budget_s": secs, "executions": execs, "coverage_edges": cov, "corpus_units": corp, "seed_inputs": seeds, "crash_artifacts": crashes.len(), "jobs": 8});
+        match &mut self.fuzz {
+            Some(Value::Array(a)) => a.push(entry),
+            _ => self.fuzz = Some(Value::Array(vec![entry])),
+        }
+        let st = self.stats_mut(if stage.is_some() { "libfuzzer" } else { "libfuzzer_codec" });
+        st.kind = "libfuzzer";
+        st.evaluations += execs;
+        st.wall_s += secs_used;
+        if !reported {
+            let _ = std::fs::remove_dir_all(&work);
+        }
+    }
+}
